@@ -195,6 +195,7 @@ type RunOpts struct {
 	OnEvent        func(ev string)    // observer of the unified event log
 	KB             *ast.KnowledgeBase // reuse this instance instead of creating one
 	DefaultChoice  int                // order choice used beyond Choices (clamped to the number of permutations)
+	CountReads     string             // when set ("F.P->V"): leaf reads of that accessor are logged as events "read:<key>"
 }
 
 type monitor struct {
@@ -439,7 +440,19 @@ func RunOn(prog *Program, kb *ast.KnowledgeBase, w *ref.World, opts RunOpts, tr 
 	if opts.Removed == nil {
 		opts.Removed = map[string]bool{}
 	}
+	var counter *AccessCounter
+	if opts.CountReads != "" {
+		dc, counter = CountingDataContext(dc)
+	}
 	m := &monitor{prog: prog, kb: kb, dc: dc, world: w, tr: tr, opts: &opts, retracted: map[string]bool{}, memo: NewMemoSet(kb)}
+	if counter != nil {
+		want := opts.CountReads
+		counter.OnRead = func(key string) {
+			if key == want {
+				m.event("read:" + key)
+			}
+		}
+	}
 	eng := &engine.GruleEngine{MaxCycle: opts.MaxCycle, ReturnErrOnFailedRuleEvaluation: opts.ReturnErr}
 	eng.Listeners = append(eng.Listeners, m)
 	tr.ExtraLogs = make([][]string, opts.ExtraListeners)
